@@ -21,7 +21,7 @@ Section FP.
   Proof. unfold loop_set_normal. destruct (verts L) as [|a [|b [|c l]]] eqn:E; try discriminate. intros H; inversion H; subst. cbn [verts set_normal_field]. exact E. Qed.
   Lemma push_verts (L L' : Loop K) (p : V) : loop_push L p = Ok L' -> incl (verts L') (p :: verts L) /\ llen L' <= S (llen L).
   Proof.
-    unfold loop_push, loop_push_gen. destruct (valid_to_add L p); cbn [rbind]; try discriminate.
+    unfold loop_push, loop_push_gen, loop_push_gen2. cbn [negb andb]. destruct (valid_to_add L p); cbn [rbind]; try discriminate.
     assert (G : forall vs, incl vs (p :: verts L) -> length vs <= S (llen L) ->
                 (if Nat.eqb (length vs) 3 then loop_set_normal (set_verts L vs) else Ok (set_verts L vs)) = Ok L' ->
                 incl (verts L') (p :: verts L) /\ llen L' <= S (llen L)).
@@ -29,7 +29,9 @@ Section FP.
       - apply set_normal_verts in H. unfold llen. rewrite H. cbn [verts set_verts]. split; assumption.
       - inversion H; subst. unfold llen. cbn [verts set_verts]. split; assumption. }
     destruct (Nat.leb 2 (llen L)) eqn:E2.
-    - destruct (is_collinear _ _ p) as [col| |]; cbn [rbind]; try discriminate. apply G.
+    - destruct (vcompare _ p).
+      { cbn [rbind]. apply G; [intros z Hz; right; apply removelast_incl; exact Hz | rewrite removelast_length; unfold llen; lia]. }
+      destruct (is_collinear _ _ p) as [col| |]; cbn [rbind]; try discriminate. apply G.
       + destruct col.
         * unfold replace_last. intros z Hz. apply in_app_or in Hz. destruct Hz as [Hz|[<-|[]]]; [right; apply removelast_incl; exact Hz | left; reflexivity].
         * intros z Hz. apply in_app_or in Hz. destruct Hz as [Hz|[<-|[]]]; [right; exact Hz | left; reflexivity].
